@@ -355,7 +355,8 @@ fn mon_c01(ctx: &mut Ctx, s: &Session, l1: &[Mv], byz: u32) -> Step {
                 l.iter().map(|&m| perft(&p.make(m), d - 1)).sum()
             }
             let want = perft(&s.model, d);
-            let got = op(Op::Generate, || s.board.perft_test(d)) as u64;
+            // (the helper applies moves as well: a trap inside it is C07's; only its counts are judged here)
+            let got = op(Op::Perft, || s.board.perft_test(d)) as u64;
             ctx.stats.bump("c01.perft-counts");
             ctx.observe_u64(got);
             if got != want {
